@@ -561,6 +561,19 @@ func TestVerifC29(t *testing.T) {
 			}
 		}
 	}
+	// every small transaction: one input, no or one output, every script length 0..40
+	// (all stripped sizes from 51 to 140 bytes, 64 - the size of a Merkle inner node -
+	// included)
+	for nout := 0; nout <= 1; nout++ {
+		for sl := 0; sl <= 40; sl++ {
+			for pl := 0; pl <= 40; pl++ {
+				if nout == 0 && pl != 0 {
+					continue
+				}
+				txs = append(txs, c29Tx{NIn: 1, NOut: nout, SigLen: sl, PkLen: pl, Numeric: (sl + pl) % len(c29Nums)})
+			}
+		}
+	}
 	r.Set("transactions", len(txs))
 	r.Sample(txs[len(txs)/3])
 	r.Sample(txs[len(txs)-1])
